@@ -12,6 +12,7 @@ NT = 4
 DEFAULT_WEIGHTS = {
     "new": 10, "enter": 10, "exit": 7, "add": 16, "addf": 9, "getnw": 14, "get": 10, "finish": 4,
     "getall": 5, "addtd": 6, "current": 3, "parent": 1, "spawn": 2, "state": 3, "inject": 0, "decorate": 0,
+    "cancelget": 0,
 }
 FORMS_PLAIN = ["plain", "str"]
 FORMS_OPT = ["optional", "pep604", "str604", "union", "optstr", "unionstr", "stropt", "str604b"]
@@ -49,6 +50,7 @@ class KGen:
         self.next_fid = 1
         self.next_cb = 1
         self.gated_facs: set[tuple[int, int]] = set()      # (ctx, fid) of gated factories that were looked up
+        self.n_gets = 0
         self.ops: list[dict[str, Any]] = []
 
     # -------------------------------------------------------------- helpers
@@ -227,8 +229,57 @@ class KGen:
             ty, name = rng.randrange(NT), self.name()
             if self.ctxs[c]["keys"] and rng.random() < 0.8:
                 ty, name = rng.choice(self.ctxs[c]["keys"])
-            return {"op": kind, "t": t, "c": c, "ty": ty, "name": name,
-                    "opt": rng.random() < 0.35, "via": self.via(t, c)}
+            gk = sorted(self.ctxs[c].get("gated_keys", ()))
+            if kind == "get" and gk and self.w.get("cancelget") and rng.random() < 0.35:
+                ty, name = rng.choice(gk)         # lookups piling up on a suspended factory
+            op = {"op": kind, "t": t, "c": c, "ty": ty, "name": name,
+                  "opt": rng.random() < 0.35, "via": self.via(t, c)}
+            if kind == "get" and (ty, name) in self.ctxs[c].get("gated_keys", ()):
+                # may be suspended (on the factory, or waiting for a generation in flight): a candidate for `cancelget`
+                self.n_gets += 1
+                op["gid"] = self.n_gets
+                self.ctxs[c].setdefault("sus", []).append(self.n_gets)
+            return op
+        if kind == "cancelget" and rng.random() < 0.5:
+            # a scripted pile-up: a fresh suspended factory, one lookup running it, others waiting for that generation
+            # (on either of its types), then the running one - or a waiting one - is given up
+            c = self.pick_ctx(("open",))
+            if c is None or self.ctxs[c]["state"] != "open":
+                return None
+            fid = self.next_fid
+            self.next_fid += 1
+            name = f"p{fid}"
+            types = rng.sample(range(NT), rng.choice([1, 2]))
+            first = {"op": "addf", "t": t, "c": c, "types": types, "name": name, "fid": fid, "desc": None, "async": True,
+                     "gated": True, "failFirst": rng.choice([0, 0, 1]), "noneIn": False, "annot": False, "single": False,
+                     "via": "method"}
+            for ty in types:
+                self.ctxs[c]["keys"].append((ty, name))
+                self.ctxs[c].setdefault("gated_keys", set()).add((ty, name))
+            self.gated_facs.add((c, fid))
+            self.ctxs[c].setdefault("gated", set()).add(fid)
+            gids = []
+            for _ in range(rng.choice([2, 3, 4])):
+                self.n_gets += 1
+                gids.append(self.n_gets)
+                self.queue.append({"op": "get", "t": t, "c": c, "ty": rng.choice(types), "name": name,
+                                   "opt": rng.random() < 0.3, "via": "method", "gid": self.n_gets})
+            victim = gids[0] if rng.random() < 0.7 else rng.choice(gids[1:])
+            self.queue.append({"op": "cancelget", "c": c, "gid": victim})
+            self.ctxs[c].setdefault("sus", []).extend(g for g in gids if g != victim)
+            return first
+        if kind == "cancelget":
+            cands = [(c, g) for c, x in self.ctxs.items() if x["state"] in ("open", "leaked") for g in x.get("sus", ())]
+            if not cands:
+                return None
+            c, g = rng.choice(cands)
+            many = [c2 for c2, x in self.ctxs.items() if x["state"] in ("open", "leaked") and len(x.get("sus", ())) >= 2]
+            if many and rng.random() < 0.7:
+                # preferably the oldest of several outstanding lookups: the one running the factory, with others waiting
+                c = rng.choice(many)
+                g = min(self.ctxs[c]["sus"])
+            self.ctxs[c]["sus"].remove(g)
+            return {"op": "cancelget", "c": c, "gid": g}
         if kind == "finish":
             cands = sorted(self.all_gated())
             if not cands:
@@ -394,13 +445,18 @@ class KGen:
         for i, op in enumerate(ops):
             if op["op"] == "get":
                 op["lid"] = 1000 + i
+        # a cancelled lookup is named by its label
+        lid_of = {op["gid"]: op["lid"] for op in ops if op["op"] == "get" and "gid" in op}
+        for op in ops:
+            if op["op"] == "cancelget":
+                op["lid"] = lid_of.get(op.pop("gid"), 999)
         return ops
 
     def closing_ops(self) -> list[dict[str, Any]]:
         """Release every gate (twice: a failed generation may have been retried by a waiter),
         then leave all blocks, innermost first."""
         ops: list[dict[str, Any]] = []
-        for _ in range(2):
+        for _ in range(3):
             for c, fid in sorted(self.all_gated()):
                 ops.append({"op": "finish", "c": c, "fid": fid})
         # a final observation of every open context: whatever happened must have left each pair
@@ -451,7 +507,7 @@ def valid_ops(ops: list[dict[str, Any]]) -> bool:
     for n, op in enumerate(ops):
         k = op["op"]
         t = op.get("t", 0)
-        if k != "finish" and t not in stacks:
+        if k not in ("finish", "cancelget") and t not in stacks:
             return False
         if k == "enter" and op.get("pre"):
             nxt = ops[n + 1] if n + 1 < len(ops) else {}
